@@ -525,7 +525,7 @@ func (ev *Evaluator) evalPath(p *jast.Path, in Value, env *Env) (Value, *Err) {
 			return Undef, nil
 		}
 	}
-	if p.Keep {
+	if keepsArrays(p) {
 		if s, ok := output.(*Seq); ok {
 			return &Seq{Items: s.Items, Keep: true}, nil
 		}
@@ -720,7 +720,22 @@ func (ev *Evaluator) evalSort(n *jast.Sort, in Value, env *Env) (Value, *Err) {
 	for i, inf := range infos {
 		out[i] = items[inf.idx]
 	}
+	// the keep-array marker belongs to the path as a whole, also when it is
+	// written before the order-by (items[]^(k))
+	if keepsArrays(n.X) {
+		return out, nil
+	}
 	return normalizeArray(out), nil
+}
+
+func keepsArrays(n jast.Node) bool {
+	switch n := n.(type) {
+	case *jast.Path:
+		return n.Keep || len(n.Steps) > 0 && keepsArrays(n.Steps[0])
+	case *jast.Sort:
+		return keepsArrays(n.X)
+	}
+	return false
 }
 
 func less(a, b Value) bool {
